@@ -26,7 +26,7 @@ RULE = ("each run = one small MILP (<=5 variables, <=6 rows + explicit box rows,
         "distinct = digest of (instance, per-configuration status/objective)")
 REAL = ["solvor.milp.solve_milp (incl. _round_binary, _lns_improve, _solve_sub_mip)", "solvor.simplex.solve_lp", "solvor.lns.lns"]
 STUB = ["random.Random inside solvor.milp and solvor.lns (SimRandom)"]
-ASSUMPTIONS = ["max_iter / max_nodes at their defaults", "exact reference by box enumeration and Fraction vertex enumeration"]
+ASSUMPTIONS = ["max_iter / max_nodes at their defaults or cut small (then MAX_ITER / FEASIBLE claim nothing, every other status is judged)", "exact reference by box enumeration and Fraction vertex enumeration"]
 TIERS = {
     "quick": {"runs": 16000, "block": 500, "budget_s": 80},
     "thorough": {"runs": 600000, "block": 1000, "budget_s": 900},
@@ -267,6 +267,8 @@ def generate_small(rng, tier):
             "max_nodes": rng.choice([None, None, None, None, 1, 2, 5, 20]),  # a node budget that may run out before anything is proven
             "rng": seams.gen_rng_case(rng, 0.35, 60),
             "pick": rng.getrandbits(20),
+            # a pivot budget per LP that may run out inside a node LP (phase 1 or 2): nothing may then be claimed from that LP
+            "max_iter": rng.choice([None, None, None, None, None, 1, 2, 3, 5, 8, 15, 40]),
         })
     integers = list(integers)
     rng.shuffle(integers)  # the order in which the integer variables are designated carries no meaning
@@ -417,6 +419,8 @@ def run_cfg(case, cfg, ref):
                 kw["gap_tol"] = cfg["gap_tol"]
             if cfg.get("max_nodes") is not None:
                 kw["max_nodes"] = cfg["max_nodes"]
+            if cfg.get("max_iter") is not None:
+                kw["max_iter"] = cfg["max_iter"]
             res = m.solve_milp(inp[0], inp[1], inp[2], inp[3], **kw)
     except budget.StepBudgetExceeded:
         exceeded = True
@@ -456,7 +460,7 @@ def judge(case, cfg, res, exc, exceeded, ref, o: Outcome, label):
             o.violate(PROP, "objective_mismatch", f"{label}: reported {res.objective!r} but c.x = {obj!r} at {tuple(res.solution)}", **feats)
             return st
     if ref["status"] == "UNBOUNDED":
-        if st != "UNBOUNDED":
+        if st != "UNBOUNDED" and not (st == "MAX_ITER" and cfg.get("max_iter") is not None):
             o.violate(PROP, "missed_unbounded", f"{label}: status {st} although x=0 is feasible and variable {case['free_var']} improves the "
                       f"objective without bound", **feats)
         return st
